@@ -28,8 +28,23 @@ def burst_bytes(b):
                 ends.append((len(out), {"name": "ping", "data": p}))
             else:
                 p = (b"m%04d" % i) * b.get("rep", 1)
-                out += B(wire.BINARY, p)
-                ends.append((len(out), {"name": "binary", "data": p}))
+                shape = (b.get("shapes") or [0])[i % len(b.get("shapes") or [0])]
+                if shape == 1:            # empty binary message
+                    p = b""
+                    out += B(wire.BINARY, p)
+                    ends.append((len(out), {"name": "binary", "data": p}))
+                elif shape == 2:          # empty text message
+                    out += B(wire.TEXT, b"")
+                    ends.append((len(out), {"name": "text", "text": ""}))
+                elif shape == 3:          # streamed text terminated by an empty final fragment
+                    out += B(wire.TEXT, p, fin=0) + B(wire.CONT, b"")
+                    ends.append((len(out), {"name": "text", "text": p.decode("ascii")}))
+                elif shape == 4:          # text
+                    out += B(wire.TEXT, p)
+                    ends.append((len(out), {"name": "text", "text": p.decode("ascii")}))
+                else:
+                    out += B(wire.BINARY, p)
+                    ends.append((len(out), {"name": "binary", "data": p}))
     elif kind == "few_large":
         for i, size in enumerate(b["sizes"]):
             p = bytes([65 + i % 26]) * size
@@ -64,7 +79,10 @@ class C18(Prop):
     def strategy(self, tier):
         small = st.fixed_dictionaries({
             "kind": st.just("many_small"), "n": st.one_of(st.integers(1, 40), st.integers(100, 300)),
-            "rep": st.sampled_from([1, 1, 10, 60]), "ping_every": st.one_of(st.none(), st.integers(1, 20))})
+            "rep": st.sampled_from([1, 1, 10, 60]), "ping_every": st.one_of(st.none(), st.integers(1, 20)),
+            # per-frame shapes, cycled: 0 binary, 1 empty binary, 2 empty text, 3 text ended by an
+            # empty final fragment, 4 text - whichever comes last is the last thing in its read
+            "shapes": st.lists(st.integers(0, 4), min_size=1, max_size=5)})
         large = st.fixed_dictionaries({
             "kind": st.just("few_large"),
             "sizes": st.lists(st.one_of(st.sampled_from(SIZES), st.integers(1, 70000)), min_size=1, max_size=3),
@@ -87,6 +105,14 @@ class C18(Prop):
                             yield {"tls": tls, "record": record, "with_reply": False, "chunk": None,
                                    "bursts": [[4, {"kind": "few_large", "sizes": [size, 10], "fragment": fragment}],
                                               [4, {"kind": "many_small", "n": 120, "rep": 10, "ping_every": 7}]]}
+            # every frame shape as the LAST frame of a read, plain and TLS
+            for tls in (False, True):
+                for last in range(5):
+                    for n in (1, 2, 7):
+                        shapes = [0] * (n - 1) + [last]
+                        yield {"tls": tls, "record": 16384, "with_reply": n == 2, "chunk": None,
+                               "bursts": [[4, {"kind": "many_small", "n": n, "rep": 1, "ping_every": None, "shapes": shapes}],
+                                          [8, {"kind": "many_small", "n": 1, "rep": 1, "ping_every": None, "shapes": [0]}]]}
         return [Enumeration("sizes_x_records_grid", grid, exhaustive=True)]
 
     def run_case(self, case):
@@ -143,14 +169,14 @@ class C18(Prop):
             return failed("delivery_mismatch", "%d messages delivered, %d sent; events end %s" % (
                 len(got), len(expected), tr.names()[-4:]), labels, nontrivial)
         for i, (g, (at, ev)) in enumerate(zip(got, expected)):
-            if g["name"] != ev["name"] or g.get("data") != ev["data"]:
+            if g["name"] != ev["name"] or g.get("data") != ev.get("data") or g.get("text") != ev.get("text"):
                 return failed("delivery_mismatch", "message %d differs" % i, labels, nontrivial)
             if g["t"] != at:
                 idle = [w for w in tr.sim.wait_log if not w[2] and at <= w[0] < g["t"]]
                 return failed("delivered_late",
                               "message %d of %d (%s, %d bytes) became available at t=%s but was delivered at t=%s, after %d idle "
                               "selector wait(s) of %s s (transport %s, record %d)" % (
-                                  i, len(expected), g["name"], len(ev["data"]), at, g["t"], len(idle),
+                                  i, len(expected), g["name"], len(ev.get("data", ev.get("text", ""))), at, g["t"], len(idle),
                                   idle[0][1] if idle else "?", "tls" if tls else "plain", case["record"]),
                               labels, nontrivial)
         # automatic pongs: written at the time their Ping became available
